@@ -10,6 +10,7 @@ import (
 	"io"
 	"math"
 	"net"
+	"sync"
 	"time"
 
 	"github.com/pion/stun/v3"
@@ -33,6 +34,9 @@ type TCPAllocation struct {
 	connAttemptCh chan *connectionAttempt
 	acceptTimer   *time.Timer
 	allocation
+
+	closeMutex sync.Mutex
+	closed     bool // Close has run: a second Close must not deallocate again
 }
 
 // NewTCPAllocation creates a new instance of TCPConn.
@@ -382,6 +386,17 @@ func (a *TCPAllocation) SetDeadline(t time.Time) error {
 func (a *TCPAllocation) Close() error {
 	a.refreshAllocTimer.Stop()
 	a.refreshPermsTimer.Stop()
+
+	// Only the first Close releases the allocation: by the time of a second
+	// one the client may have a new allocation, which is not this one's to
+	// unroute or to delete at the server.
+	a.closeMutex.Lock()
+	alreadyClosed := a.closed
+	a.closed = true
+	a.closeMutex.Unlock()
+	if alreadyClosed {
+		return errAlreadyClosed
+	}
 
 	a.client.OnDeallocated(a.relayedAddr)
 
